@@ -93,6 +93,197 @@ AddRecordF(ms, h, rec) ==
 
 DoAddRecord(ms, a) == AddRecordF(ms, a.h, RecAt(ms, a.r))
 
+(* ---------------------------------------------------------------------- *)
+(* Adding a sequence of records to container h by re-creation (add_record   *)
+(* each); stops at the first exception.                                     *)
+RECURSIVE AddAllFrom(_, _, _, _)
+AddAllFrom(ms, h, recs, i) ==
+  IF i > Len(recs) THEN Ok(ms, NoQN)
+  ELSE LET r == AddRecordF(ms, h, recs[i]) IN
+       IF r.exc # "none" THEN r ELSE AddAllFrom(r.st, h, recs, i + 1)
+AddAll(ms, h, recs) == AddAllFrom(ms, h, recs, 1)
+
+HasBundles(c) == c.kind = "doc" /\ c.bundles # <<>>
+BundleIdx(ms, h, u) == {i \in 1..Len(ms.con[h].bundles) :
+                          LET b == ms.con[ms.con[h].bundles[i]] IN b.id.ok /\ Uri(b.id) = u}
+
+(* ProvDocument.bundle(identifier) -> new empty bundle `out' of document h *)
+BundleF(ms, h, idn, out) ==
+  LET m  == ms.con[h].mgr
+      ri == ResolveName(ms.mgr, m, idn)
+      s1 == [ms EXCEPT !.mgr = ri.M]
+  IN IF ~ri.q.ok THEN Raise(s1, "ProvException")
+     ELSE IF BundleIdx(ms, h, Uri(ri.q)) # {} THEN Raise(s1, "ProvException")
+     ELSE Ok([s1 EXCEPT !.mgr = (out :> MgrInit(m)) @@ @,
+                        !.con = (out :> ConInit("bun", out, ri.q, h)) @@
+                                [@ EXCEPT ![h].bundles = Append(@, out)]], NoQN)
+DoBundle(ms, a) == BundleF(ms, a.h, DerefName(ms, a.id), a.out)
+
+(* ProvBundle(identifier=qn) / ProvDocument(): fresh, unattached containers *)
+DoNewBundle(ms, a) ==
+  Ok([ms EXCEPT !.mgr = (a.out :> MgrInit("")) @@ @,
+                !.con = (a.out :> ConInit("bun", a.out, QN(a.id.p, a.id.ns, a.id.l), "")) @@ @], NoQN)
+DoNewDoc(ms, a) ==
+  Ok([ms EXCEPT !.mgr = (a.out :> MgrInit("")) @@ @,
+                !.con = (a.out :> ConInit("doc", a.out, NoQN, "")) @@ @], NoQN)
+
+(* ProvBundle.update(other) / ProvDocument.update(other) *)
+RECURSIVE UpdBundlesFrom(_, _, _, _)
+UpdateF(ms, h, o) ==
+  LET c == ms.con[h]
+      oc == ms.con[o]
+  IN IF c.kind = "bun" THEN
+        IF HasBundles(oc) THEN Raise(ms, "ProvException") ELSE AddAll(ms, h, oc.recs)
+     ELSE LET r == AddAll(ms, h, oc.recs) IN
+          IF r.exc # "none" \/ ~HasBundles(oc) THEN r
+          ELSE UpdBundlesFrom(r.st, h, oc.bundles, 1)
+(* bundles of `other': merged into the same-named bundle of h or re-created under it. *)
+(* New bundle handles are named after the source bundle handle: "<h>+<b>".            *)
+UpdBundlesFrom(ms, h, bs, i) ==
+  IF i > Len(bs) THEN Ok(ms, NoQN)
+  ELSE LET b   == ms.con[bs[i]]
+           hit == BundleIdx(ms, h, Uri(b.id))
+           r   == IF hit # {}
+                  THEN AddAll(ms, ms.con[h].bundles[CHOOSE k \in hit : TRUE], b.recs)
+                  ELSE LET nb == h \o "+" \o bs[i]
+                           r1 == BundleF(ms, h, NameOfQ(b.id), nb)
+                       IN IF r1.exc # "none" THEN r1 ELSE AddAll(r1.st, nb, b.recs)
+       IN IF r.exc # "none" THEN r ELSE UpdBundlesFrom(r.st, h, bs, i + 1)
+DoUpdate(ms, a) == UpdateF(ms, a.h, a.other)
+
+(* ProvDocument.add_bundle(bundle, identifier).  A document argument is first     *)
+(* converted into a new bundle `out' carrying its registered namespaces (not its  *)
+(* default namespace); a bundle argument is attached as it is.  The parent link   *)
+(* and the identifier of the (new) bundle are rewritten before the duplicate      *)
+(* check.                                                                         *)
+RECURSIVE AddNsAll(_, _, _)
+AddNsAll(st, reg, i) == IF i > Len(reg) THEN st ELSE AddNsAll(AddNsF(st, reg[i][1], reg[i][2]).st, reg, i + 1)
+AddBundleF(ms, h, arg, idn, out) ==
+  LET ac == ms.con[arg]
+      (* a refused document argument leaves nothing behind: the converted bundle is dropped *)
+      Refuse(st) == IF ac.kind = "doc" THEN Raise(ms, "ProvException") ELSE Raise(st, "ProvException")
+  IN
+  IF ac.kind = "doc" /\ HasBundles(ac) THEN Raise(ms, "ProvException")
+  ELSE
+  LET conv == IF ac.kind = "doc"
+              THEN LET s0 == [ms EXCEPT !.mgr = (out :> AddNsAll(MgrInit(""), ms.mgr[ac.mgr].reg, 1)) @@ @,
+                                        !.con = (out :> ConInit("bun", out, NoQN, "")) @@ @]
+                   IN AddAll(s0, out, ac.recs)
+              ELSE Ok(ms, NoQN)
+      b == IF ac.kind = "doc" THEN out ELSE arg
+  IN IF conv.exc # "none" THEN Raise(ms, conv.exc)
+     ELSE
+     LET s1  == conv.st
+         bid == IF idn # <<>> THEN idn[1]
+                ELSE IF s1.con[b].id.ok THEN NameOfQ(s1.con[b].id) ELSE [rep |-> "none"]
+     IN IF bid.rep = "none" THEN Refuse(s1)
+        ELSE
+        LET bm == s1.con[b].mgr
+            s2 == [s1 EXCEPT !.mgr[bm].parent = s1.con[h].mgr]
+            ri == ResolveName(s2.mgr, bm, bid)
+            s3 == [s2 EXCEPT !.mgr = ri.M, !.con[b].id = ri.q]
+        IN IF ri.q.ok /\ BundleIdx(s3, h, Uri(ri.q)) # {} THEN Refuse(s3)
+           ELSE Ok([s3 EXCEPT !.con[h].bundles = Append(@, b), !.con[b].doc = h], NoQN)
+DoAddBundle(ms, a) ==
+  AddBundleF(ms, a.h, a.arg, IF a.id = <<>> THEN <<>> ELSE <<DerefName(ms, a.id[1])>>, a.out)
+
+(* ProvDocument.flattened(): a document with bundles -> new document `out' with all *)
+(* records re-created in it; a bundle-free document returns itself (no `out').      *)
+RECURSIVE ConcatRecs(_, _, _)
+ConcatRecs(ms, bs, i) == IF i > Len(bs) THEN <<>> ELSE ms.con[bs[i]].recs \o ConcatRecs(ms, bs, i + 1)
+FlattenedF(ms, h, out) ==
+  IF ~HasBundles(ms.con[h]) THEN [st |-> ms, res |-> NoQN, exc |-> "none"]
+  ELSE LET s0 == [ms EXCEPT !.mgr = (out :> MgrInit("")) @@ @,
+                            !.con = (out :> ConInit("doc", out, NoQN, "")) @@ @]
+       IN AddAll(s0, out, ms.con[h].recs \o ConcatRecs(ms, ms.con[h].bundles, 1))
+DoFlattened(ms, a) == FlattenedF(ms, a.h, a.out)
+
+(* ProvDocument(records=...) from the records of container h *)
+DoDocFromRecs(ms, a) ==
+  LET s0 == [ms EXCEPT !.mgr = (a.out :> MgrInit("")) @@ @,
+                       !.con = (a.out :> ConInit("doc", a.out, NoQN, "")) @@ @]
+  IN AddAll(s0, a.out, ms.con[a.h].recs)
+
+(* _unified_records: records sharing an identifier and a kind are merged into a      *)
+(* copy of the first, by add_attributes of the others, in the source's manager.     *)
+AttrPairs(rec) == LET sq == SetToSeq(rec.attrs) IN
+                  [i \in 1..Len(sq) |-> <<NameOfQ(sq[i].a), ValAsInput(sq[i].v)>>]
+RECURSIVE MergeFrom(_, _, _, _, _)
+MergeFrom(M, m, merged, others, i) ==
+  IF i > Len(others) THEN [rec |-> merged, M |-> M, exc |-> "none"]
+  ELSE LET r == AddAttrsF(M, m, merged, AttrPairs(others[i])) IN
+       IF r.exc # "none" THEN r ELSE MergeFrom(r.M, m, r.rec, others, i + 1)
+(* result: [recs, M, exc].  A group is the records of one identifier AND one kind    *)
+(* (two or more); groups are processed in idmap (dict) order, which only matters    *)
+(* for which conflict is reported first.                                            *)
+GroupIdx(c, g) == SelectSeq(c.idmap[g[1]], LAMBDA i : c.recs[i].k = g[2])
+RECURSIVE UnifyGroups(_, _, _, _, _)
+UnifyGroups(M, c, gs, i, acc) ==
+  IF i > Len(gs) THEN [merged |-> acc, M |-> M, exc |-> "none"]
+  ELSE LET idx == GroupIdx(c, gs[i])
+           first == c.recs[idx[1]]
+           copy == AddAttrsF(M, c.mgr, [first EXCEPT !.attrs = {}], AttrPairs(first))
+       IN IF copy.exc # "none" THEN [merged |-> acc, M |-> copy.M, exc |-> copy.exc]
+          ELSE LET r == MergeFrom(copy.M, c.mgr, copy.rec,
+                                  [j \in 1..(Len(idx) - 1) |-> c.recs[idx[j + 1]]], 1)
+               IN IF r.exc # "none" THEN [merged |-> acc, M |-> r.M, exc |-> r.exc]
+                  ELSE UnifyGroups(r.M, c, gs, i + 1, (gs[i] :> r.rec) @@ acc)
+UnifiedRecordsF(M, c) ==
+  LET groups == {g \in {<<Uri(c.recs[i].id), c.recs[i].k>> : i \in {j \in 1..Len(c.recs) : c.recs[j].id.ok}} :
+                   Len(GroupIdx(c, g)) > 1}
+      g == UnifyGroups(M, c, SetToSeq(groups), 1, <<>>)
+      key(r) == <<Uri(r.id), r.k>>
+  IN
+  IF g.exc # "none" THEN [recs |-> <<>>, M |-> g.M, exc |-> g.exc]
+  ELSE LET keep(i) == LET r == c.recs[i] IN
+                      ~r.id.ok \/ key(r) \notin DOMAIN g.merged \/ GroupIdx(c, key(r))[1] = i
+           idxs == SelectSeq([i \in 1..Len(c.recs) |-> i], keep)
+       IN [recs |-> [j \in 1..Len(idxs) |->
+                       LET r == c.recs[idxs[j]] IN
+                       IF r.id.ok /\ key(r) \in DOMAIN g.merged THEN g.merged[key(r)] ELSE r],
+           M |-> g.M, exc |-> "none"]
+
+(* ProvBundle.unified(): new parentless bundle `out' with the unified records *)
+UnifiedBundleF(ms, h, out) ==
+  LET u == UnifiedRecordsF(ms.mgr, ms.con[h]) IN
+  IF u.exc # "none" THEN Raise([ms EXCEPT !.mgr = u.M], u.exc)
+  ELSE LET s0 == [ms EXCEPT !.mgr = (out :> MgrInit("")) @@ u.M,
+                            !.con = (out :> ConInit("bun", out, ms.con[h].id, "")) @@ @]
+       IN AddAll(s0, out, u.recs)
+(* ProvDocument.unified(): a new document with the source's registered namespaces,  *)
+(* the unified records re-created in it, then the source's default namespace; each  *)
+(* bundle is unified and attached with add_bundle.  Bundle handles: "<out>+<b>".    *)
+RECURSIVE UnifyBundlesFrom(_, _, _, _)
+UnifyBundlesFrom(ms, out, bs, i) ==
+  IF i > Len(bs) THEN Ok(ms, NoQN)
+  ELSE LET nb == out \o "+" \o bs[i]
+           r1 == UnifiedBundleF(ms, bs[i], nb)
+       IN IF r1.exc # "none" THEN r1
+          ELSE LET r2 == AddBundleF(r1.st, out, nb, <<>>, "")
+               IN IF r2.exc # "none" THEN r2 ELSE UnifyBundlesFrom(r2.st, out, bs, i + 1)
+UnifiedDocF(ms, h, out) ==
+  LET u == UnifiedRecordsF(ms.mgr, ms.con[h]) IN
+  IF u.exc # "none" THEN Raise([ms EXCEPT !.mgr = u.M], u.exc)
+  ELSE LET src == u.M[ms.con[h].mgr]
+           s0 == [ms EXCEPT !.mgr = (out :> AddNsAll(MgrInit(""), src.reg, 1)) @@ u.M,
+                            !.con = (out :> ConInit("doc", out, NoQN, "")) @@ @]
+           r  == AddAll(s0, out, u.recs)
+       IN IF r.exc # "none" THEN r
+          ELSE LET s1 == IF src.dflt = NONE THEN r.st
+                         ELSE [r.st EXCEPT !.mgr[out] = SetDefaultF(@, src.dflt)]
+               IN UnifyBundlesFrom(s1, out, ms.con[h].bundles, 1)
+DoUnified(ms, a) ==
+  IF ms.con[a.h].kind = "doc" THEN UnifiedDocF(ms, a.h, a.out) ELSE UnifiedBundleF(ms, a.h, a.out)
+
+(* get_record(identifier): resolves the identifier (a QualifiedName argument may *)
+(* register a namespace) and returns the indexed records, as indices             *)
+DoGetRecord(ms, a) ==
+  LET c  == ms.con[a.h]
+      ri == ResolveName(ms.mgr, c.mgr, DerefName(ms, a.id))
+  IN [st |-> [ms EXCEPT !.mgr = ri.M],
+      res |-> IF ri.q.ok /\ Uri(ri.q) \in DOMAIN c.idmap THEN c.idmap[Uri(ri.q)] ELSE <<>>,
+      exc |-> "none"]
+
 (* index coherence: idmap is exactly the scan of recs (C18, checked in every model) *)
 ScanIndex(c, u) == SelectSeq([i \in 1..Len(c.recs) |-> i],
                              LAMBDA i : c.recs[i].id.ok /\ Uri(c.recs[i].id) = u)
